@@ -86,9 +86,18 @@ type PubD struct {
 	Flags []string   `json:"flags,omitempty"`
 }
 
+// AlterD: rules added to an existing workspace after all workspaces were created (IAppDefBuilder.AlterWorkspace)
+type AlterD struct {
+	Ws    string  `json:"ws"`
+	Rules []RuleD `json:"rules"`
+}
+
 type Scenario struct {
 	Note    string   `json:"note,omitempty"`
 	Wss     []WsD    `json:"wss"`
+	Alter   []AlterD `json:"alter,omitempty"`
+	// Vsql: the scenario is rendered as VSQL source and compiled by the real parser (vsql.go)
+	Vsql bool `json:"vsql,omitempty"`
 	Queries []QueryD `json:"queries"`
 	RRA     []RRAD   `json:"rra,omitempty"`
 	Pub     []PubD   `json:"pub,omitempty"`
@@ -196,6 +205,9 @@ func protect(f func()) (msg string) {
 // build constructs the application through the real builder.  Rules the builder refuses are
 // marked Skipped (they are then not part of the schema).
 func build(sc *Scenario) (appdef.IAppDef, error) {
+	if sc.Vsql {
+		return buildVsql(sc)
+	}
 	adb := builder.New()
 	adb.AddPackage(pkgName, "test.com/test")
 	for wi := range sc.Wss {
@@ -262,33 +274,63 @@ func build(sc *Scenario) (appdef.IAppDef, error) {
 			wsb.AddRole(qn(r))
 		}
 		for ri := range w.Rules {
-			r := &w.Rules[ri]
-			r.Skipped = protect(func() {
-				flt := mkFilter(r.Flt)
-				// the builder accepts a rule whose filter matches nothing and fails only in Build: refuse it here
-				n := 0
-				for range appdef.FilterMatches(flt, wsb.Workspace().Types()) {
-					n++
-				}
-				if n == 0 {
-					panic("filter has no matches")
-				}
-				switch r.Kind {
-				case "grant":
-					wsb.Grant(ops(r.Ops), flt, r.Fields, qn(r.Role))
-				case "revoke":
-					wsb.Revoke(ops(r.Ops), flt, r.Fields, qn(r.Role))
-				case "grantall":
-					wsb.GrantAll(flt, qn(r.Role))
-				case "revokeall":
-					wsb.RevokeAll(flt, qn(r.Role))
-				default:
-					panic("unknown rule kind " + r.Kind)
-				}
-			})
+			applyRule(wsb, &w.Rules[ri])
+		}
+	}
+	for ai := range sc.Alter {
+		a := &sc.Alter[ai]
+		wsb := adb.AlterWorkspace(qn(a.Ws))
+		for ri := range a.Rules {
+			applyRule(wsb, &a.Rules[ri])
 		}
 	}
 	return adb.Build()
+}
+
+// applyRule passes one declared rule to the builder; a rule the builder refuses is marked Skipped
+func applyRule(wsb appdef.IWorkspaceBuilder, r *RuleD) {
+	r.Skipped = protect(func() {
+		flt := mkFilter(r.Flt)
+		// the builder accepts a rule whose filter matches nothing and fails only in Build: refuse it here
+		n := 0
+		for range appdef.FilterMatches(flt, wsb.Workspace().Types()) {
+			n++
+		}
+		if n == 0 {
+			panic("filter has no matches")
+		}
+		switch r.Kind {
+		case "grant":
+			wsb.Grant(ops(r.Ops), flt, r.Fields, qn(r.Role))
+		case "revoke":
+			wsb.Revoke(ops(r.Ops), flt, r.Fields, qn(r.Role))
+		case "grantall":
+			wsb.GrantAll(flt, qn(r.Role))
+		case "revokeall":
+			wsb.RevokeAll(flt, qn(r.Role))
+		default:
+			panic("unknown rule kind " + r.Kind)
+		}
+	})
+}
+
+// declared lists the rules the builder accepted, in the order they were passed to it
+func declared(sc *Scenario) (ws []string, rules []*RuleD) {
+	for wi := range sc.Wss {
+		for ri := range sc.Wss[wi].Rules {
+			if r := &sc.Wss[wi].Rules[ri]; r.Skipped == "" {
+				ws, rules = append(ws, sc.Wss[wi].Name), append(rules, r)
+			}
+		}
+	}
+	for ai := range sc.Alter {
+		for ri := range sc.Alter[ai].Rules {
+			if r := &sc.Alter[ai].Rules[ri]; r.Skipped == "" {
+				ws, rules = append(ws, sc.Alter[ai].Ws), append(rules, r)
+			}
+		}
+	}
+	return
 }
 
 // ---- numbering ----
@@ -337,6 +379,26 @@ func number(app appdef.IAppDef, sc *Scenario) *numbering {
 				}
 			}
 			walk(r.Filter())
+		}
+	}
+	var walkD func(f FiltD)
+	walkD = func(f FiltD) {
+		for _, n := range f.Names {
+			all.Add(qn(n))
+		}
+		if f.Ws != "" {
+			all.Add(qn(f.Ws))
+		}
+		for _, c := range f.Sub {
+			walkD(c)
+		}
+	}
+	dws, drs := declared(sc)
+	for i, r := range drs {
+		all.Add(qn(dws[i]), qn(r.Role))
+		walkD(r.Flt)
+		for _, f := range r.Fields {
+			fset[f] = true
 		}
 	}
 	for _, q := range sc.Queries {
@@ -474,18 +536,128 @@ func (nb *numbering) schema(app appdef.IAppDef) string {
 		for _, a := range w.Ancestors() {
 			anc = append(anc, a.QName())
 		}
-		var rules []string
-		for _, r := range w.ACL() {
-			var oo []string
-			for _, o := range r.Ops() {
-				oo = append(oo, kit.N(uint64(o)))
-			}
-			rules = append(rules, fmt.Sprintf("(mkRule %s %s %s %s %s)", kit.List(oo), kit.Bool(r.Policy() == appdef.PolicyKind_Allow),
-				nb.filt(r.Filter()), nb.fs(r.Filter().Fields()), nb.n(r.Principal().QName())))
-		}
-		wss = append(wss, fmt.Sprintf("(mkWs %s %s %s)", nb.n(w.QName()), nb.ns(anc), kit.List(rules)))
+		// the rule lists of the schema stay empty: the model installs the DECLARED rules (declTerm);
+		// what the built application reports as its ACL is printed separately (readBack)
+		wss = append(wss, fmt.Sprintf("(mkWs %s %s [])", nb.n(w.QName()), nb.ns(anc)))
 	}
 	return fmt.Sprintf("(mkSchema %s %s)", kit.List(types), kit.List(wss))
+}
+
+func (nb *numbering) realRule(r appdef.IACLRule) string {
+	var oo []string
+	for _, o := range r.Ops() {
+		oo = append(oo, kit.N(uint64(o)))
+	}
+	return fmt.Sprintf("(mkRule %s %s %s %s %s)", kit.List(oo), kit.Bool(r.Policy() == appdef.PolicyKind_Allow),
+		nb.filt(r.Filter()), nb.fs(r.Filter().Fields()), nb.n(r.Principal().QName()))
+}
+
+// readBack prints IWorkspace.ACL() of every workspace and IAppDef.ACL() as the built application reports them
+func (nb *numbering) readBack(app appdef.IAppDef) (perWs, appWide string) {
+	var ww []string
+	for _, w := range app.Workspaces() {
+		var rules []string
+		for _, r := range w.ACL() {
+			rules = append(rules, nb.realRule(r))
+		}
+		ww = append(ww, fmt.Sprintf("(%s, %s)", nb.n(w.QName()), kit.List(rules)))
+	}
+	var all []string
+	for _, r := range app.ACL() {
+		all = append(all, nb.realRule(r))
+	}
+	return kit.List(ww), kit.List(all)
+}
+
+// filtD prints a DECLARED filter (from the scenario description, not from the built application)
+func (nb *numbering) filtD(d FiltD) string {
+	names := func() string {
+		qq := make([]appdef.QName, len(d.Names))
+		for i, n := range d.Names {
+			qq[i] = qn(n)
+		}
+		return nb.ns(qq)
+	}
+	kinds := func() string {
+		kk := make([]appdef.TypeKind, len(d.Kinds))
+		for i, k := range d.Kinds {
+			kk[i] = kindByName[k]
+		}
+		return kindsTerm(kk)
+	}
+	fold := func(ctor string) string {
+		s := nb.filtD(d.Sub[len(d.Sub)-1])
+		for i := len(d.Sub) - 2; i >= 0; i-- {
+			s = fmt.Sprintf("(%s %s %s)", ctor, nb.filtD(d.Sub[i]), s)
+		}
+		return s
+	}
+	switch d.K {
+	case "qnames":
+		return "(FQNames " + names() + ")"
+	case "tags":
+		return "(FTags " + names() + ")"
+	case "types":
+		return "(FTypes " + kinds() + ")"
+	case "wstypes":
+		return "(FWSTypes " + nb.n(qn(d.Ws)) + " " + kinds() + ")"
+	case "alltables":
+		return "(FTypes " + kindsTerm(appdef.TypeKind_Structures.AsArray()) + ")"
+	case "allfunctions":
+		return "(FTypes " + kindsTerm(appdef.TypeKind_Functions.AsArray()) + ")"
+	case "and":
+		return fold("FAnd")
+	case "or":
+		return fold("FOr")
+	case "not":
+		return "(FNot " + nb.filtD(d.Sub[0]) + ")"
+	}
+	return "FTrue"
+}
+
+// declTerm prints the declared rules in declaration order: `list drule`.  Rules passed to the builder
+// one by one get a block each; in a VSQL scenario a block is a WORKSPACE or ALTER WORKSPACE statement
+// and the sys package's rules (compiled first) come first, as reported by the application.
+func (nb *numbering) declTerm(sc *Scenario, app appdef.IAppDef) string {
+	var out []string
+	blk := 0
+	if sc.Vsql {
+		for _, r := range sysRules(app) {
+			out = append(out, fmt.Sprintf("(mkD %s %d false %s)", nb.n(r.Workspace().QName()), blk, nb.realRule(r)))
+			blk++
+		}
+	}
+	one := func(ws string, r *RuleD) {
+		if r.Skipped != "" {
+			return
+		}
+		var oo []string
+		for _, o := range r.Ops {
+			oo = append(oo, kit.N(uint64(opByName[o])))
+		}
+		all := r.Kind == "grantall" || r.Kind == "revokeall"
+		if all {
+			oo = nil
+		}
+		out = append(out, fmt.Sprintf("(mkD %s %d %s (mkRule %s %s %s %s %s))", nb.n(qn(ws)), blk, kit.Bool(all), kit.List(oo),
+			kit.Bool(r.Kind == "grant" || r.Kind == "grantall"), nb.filtD(r.Flt), nb.fs(r.Fields), nb.n(qn(r.Role))))
+		if !sc.Vsql {
+			blk++
+		}
+	}
+	for wi := range sc.Wss {
+		for ri := range sc.Wss[wi].Rules {
+			one(sc.Wss[wi].Name, &sc.Wss[wi].Rules[ri])
+		}
+		blk++
+	}
+	for ai := range sc.Alter {
+		for ri := range sc.Alter[ai].Rules {
+			one(sc.Alter[ai].Ws, &sc.Alter[ai].Rules[ri])
+		}
+		blk++
+	}
+	return kit.List(out)
 }
 
 // ---- asking the real code ----
